@@ -173,6 +173,16 @@ StoreDown ==
     /\ up /\ up' = FALSE /\ out' = {}
     /\ UNCHANGED <<gs, agg, db, loop, now, learned, observed>>
 
+\* The guardian process dies and comes back (crash, upgrade, supervisor restart of the whole node): the aggregation
+\* state, the current guardian set and the own observations in flight are gone, the store persists.
+Restart ==
+    /\ up
+    /\ gs' = Nil /\ agg' = <<>> /\ loop' = <<>>
+    /\ out' = {[kind |-> "restart"]}
+    /\ UNCHANGED <<db, up, now, learned, observed>>
+
+IsRestartStep == [kind |-> "restart"] \in out'
+
 Advance(k) ==
     /\ now' = now + k
     /\ out' = {}
@@ -267,7 +277,7 @@ SubmittedSticky == [][SubmittedStickyStep]_vars
 
 \* C14.
 NoEarlyDiscardStep ==
-    \A d \in DOMAIN agg \ DOMAIN agg' :
+    IsRestartStep \/ \A d \in DOMAIN agg \ DOMAIN agg' :
           (agg[d].our # Nil /\ ~agg[d].submitted) =>
               (agg[d].retry >= RetryBudget \/ (up /\ agg[d].our.id \in DOMAIN db))
 NoEarlyDiscard == [][NoEarlyDiscardStep]_vars
